@@ -138,6 +138,10 @@ func main() {
 			dumpLexTable(ctx)
 			return
 		}
+		if *describe == "narrow" {
+			dumpNarrow(ctx)
+			return
+		}
 		dumpDescribe(ctx, *describe)
 		return
 	}
